@@ -274,7 +274,8 @@ func (d *digest32) f32(x float32) {
 		d.u32(0x7fc00001)
 		return
 	}
-	d.u32(math.Float32bits(x))
+	// through float64: Float32bits would round a value that was never rounded to float32
+	d.u64(math.Float64bits(float64(x)))
 }
 func (d *digest32) str(s string) {
 	for i := 0; i < len(s); i++ {
